@@ -29,6 +29,8 @@ DESIGN_REF = "DESIGN.md 4 C11"
 WEIGHTS = ["none", "frac", "zeros", "float", "scales", "tiny"]
 INS = ["none", "sum", "diff", "diff"]
 REQUIRED_REACH = ["variance", "std_dev_is_sqrt", "std_err", "moe_is_z_times_se", "strand",
+                  "nan_where_proportion_undefined",
+                  "class:undefined_proportion_on_a_defined_base",
                   "class:cell=ordinary", "class:cell=subtotal", "class:cell=difference",
                   "class:cell=intersection", "class:pair=CATxMR", "class:pair=MRxCAT",
                   "class:pair=MRxMR", "class:pair=ARRxCAT"]
@@ -66,14 +68,19 @@ def make_case(unit):
                                 disjoint=True, hide_some=False)
     if ins == "diff" and g.chance(0.35):
         cases.add_first_element_difference(g, facets, transforms)
-    if template == "cat_date" and g.chance(0.7):
+    if "cat_date" in template.split("|")[-2:] and g.chance(0.7):
         from .c04 import _date_diffs
 
         _date_diffs(g, facets, transforms)  # one-minus-one and several-term wave differences
     if wmode == "float" and g.chance(0.85):
         cases.add_total_subtotals(facets, transforms)
-    spec = sim.CubeSpec(facets, g.weights(N, wmode),
-                        ("mean",) if "numarr" in template else ())
+    mset, numvar = (("mean",) if "numarr" in template else ()), None
+    if ins == "diff" and "numarr" not in template and len(facets) >= 2 and \
+            gen.stratum(ID, i, "vc", 3) == 0:
+        # a mean next to the counts: the response carries valid counts, a difference has no
+        # proportion there (NaN) although its terms' counts and its base are defined
+        mset, numvar = ("mean",), g.num(N)
+    spec = sim.CubeSpec(facets, g.weights(N, wmode), mset, numvar)
     return {"template": template, "spec": sim.spec_to_dict(spec), "transforms": transforms,
             "ins": ins}
 
@@ -146,6 +153,24 @@ def _slice(res, L, t, part, positive):
         if not (gv.ok and gsd.ok and gse.ok and gmoe.ok):
             continue
         gva = np.asarray(gv.value, dtype=float)
+        gprop = read(part, "%s_proportions" % name)
+        gbase = read(part, "%s_weighted_bases" % name)
+        if gprop.ok and np.asarray(gprop.value).shape == gva.shape:
+            # NaN wherever the proportion is undefined - whatever its terms and base are
+            und = np.isnan(np.asarray(gprop.value, dtype=float))
+            if gbase.ok and np.asarray(gbase.value).shape == und.shape:
+                with np.errstate(invalid="ignore"):
+                    if bool(np.any(und & (np.asarray(gbase.value, dtype=float) > 0))):
+                        res.classes.append("undefined_proportion_on_a_defined_base")
+            bad = [nm for nm, g in (("variances", gv), ("std_dev", gsd), ("std_err", gse),
+                                    ("moe", gmoe))
+                   if np.asarray(g.value).shape == und.shape
+                   and not bool(np.all(np.isnan(np.asarray(g.value, dtype=float)[und])))]
+            res.check("nan_where_proportion_undefined", not bad,
+                      "slice/%s/defined_where_proportion_is_not" % name,
+                      None if not bad else {"measures": bad, "proportions":
+                                            np.asarray(gprop.value).tolist(),
+                                            "variances": gva.tolist()})
         if gva.shape != var.shape:
             res.check("variance", False, "slice/%s/shape" % name,
                       {"got": list(gva.shape), "exp": list(var.shape)})
